@@ -1,4 +1,5 @@
 import RedbModel.Lemmas.Backend
+import RedbModel.Lemmas.CloseGuard
 /-!
 # C20 — The storage backend is used according to its contract
 
@@ -18,6 +19,24 @@ Part 2 (bounds): arithmetic of the region layout (`Redb.Format.Layout`, validate
 images by C10): a page that is `inRange` lies entirely inside `fileLen` — with NO well-formedness
 hypothesis on the layout at all (`inRange` as defined is strong enough) — and pages of different
 regions, or of one region with disjoint base-page intervals, have disjoint address ranges.
+Part 3 (interleavings): Part 1 speaks about ONE recorded stream. That the stream is accepted for
+EVERY schedule of the threads that use the backend — a reader on another thread may be inside a
+backend call while the `Database` is dropped — rests on the `in_flight` lock of `CheckedBackend`;
+`Redb.CloseGuard` (Model/CloseGuard.lean) is an interleaving model of that protocol for any number
+of caller threads, at the granularity of the code. For every reachable state of the guarded model:
+  * `c20_no_call_after_close`        no `call` follows `close` in the backend's log, and no thread is
+                                     between its latch test and its return while the closer holds the
+                                     lock or after the backend was closed (no overlap either)
+  * `c20_close_once`                 at most one `close` (exactly one iff `backendClosed`)
+  * `c20_refused_after_flags`        a call that begins after `setFlags` never enters the backend
+  * `c20_close_waits_while_held`     the closer cannot take the lock while a caller holds the guard
+  * `c20_close_eventually_enabled`   … and the holders can all finish, without waiting for anything,
+                                     in at most 2 (so certainly 3) steps each; then the closer can go on
+  * `c20_unguarded_race_witness`, `c20_partial_guard_race_witness`: without the guard (the code before
+    the fix), or with one class of calls skipping it (the seeded variant), a `call` after `close` IS
+    reachable — the guard is what the property rests on
+  * `c20_race_replay_guarded`        the forced schedule of the contract harness on the model: what the
+                                     driver predicts for every `close-race-*` scenario line
 NOT covered here: that every `read`/`write` offset the real backend sees is a `pageAddr` of an
 in-range page or a header access, and the "never shrinks below a used page" part; both are checked
 by the recording backend of the contract harness against the real length at the time of the call.
@@ -238,8 +257,210 @@ theorem c20_fileLen_tight (L : Layout) (ht : 0 < L.trailingPages) :
 
 end Redb.Format
 
+namespace Redb.CloseGuard
+
+/-! ## Part 3: the close guard, for every interleaving -/
+
+/-- (1) "never touches the backend after calling close()", for every interleaving of any number of
+caller threads with the closer: in the backend's log no `call` follows `close`; and while the
+closer holds the lock exclusively (which includes the instant of `backendClose`) or after the
+backend was closed, no thread is inside the backend or about to enter it — a call does not overlap
+the close either. -/
+theorem c20_no_call_after_close {s : Sys} (h : Reachable .guarded s) :
+    (∀ pre post, s.log = pre ++ .close :: post → ∀ t, Ev.call t ∉ post) ∧
+    ((s.writer = true ∨ s.backendClosed = true) →
+      ∀ t g, s.pc t ≠ .inBackend g ∧ s.pc t ≠ .passedLatch g) := by
+  have hi := inv_reachable h
+  constructor
+  · obtain ⟨cs, hl⟩ := hi.log
+    have hno : callAfterClose s.log = false := by
+      rw [hl, callAfterClose_calls]
+      cases s.backendClosed <;> rfl
+    intro pre post e t ht
+    have := (callAfterClose_iff s.log).2 ⟨pre, post, t, e, ht⟩
+    rw [hno] at this; cases this
+  · intro hwc t g
+    have hpa : s.cpc.pastAcquire = true := by
+      rcases hwc with hw | hc
+      · rw [hi.writer] at hw
+        cases hcpc : s.cpc <;> simp_all [CPC.holdsExclusive, CPC.pastAcquire]
+      · rw [hi.closed] at hc
+        exact pastClose_pastAcquire hc
+    have := hi.quiet hpa t
+    constructor <;> intro e <;> simp [e, PC.committed] at this
+
+/-- the same, as the Boolean check that the witnesses below use -/
+theorem c20_no_call_after_close_bool {s : Sys} (h : Reachable .guarded s) :
+    callAfterClose s.log = false := by
+  cases hc : callAfterClose s.log with
+  | false => rfl
+  | true =>
+    obtain ⟨pre, post, t, e, ht⟩ := (callAfterClose_iff _).1 hc
+    exact absurd ht ((c20_no_call_after_close h).1 pre post e t)
+
+/-- (2) "calls close() exactly once": at most one `close` event, and exactly one as soon as the
+closer has passed `backendClose` -/
+theorem c20_close_once {s : Sys} (h : Reachable .guarded s) :
+    s.log.count .close ≤ 1 ∧ s.log.count .close = if s.backendClosed then 1 else 0 := by
+  obtain ⟨cs, hl⟩ := (inv_reachable h).log
+  have : s.log.count .close = if s.backendClosed then 1 else 0 := by
+    rw [hl, List.count_append, count_close_calls]
+    cases s.backendClosed <;> simp
+  refine ⟨?_, this⟩
+  rw [this]; split <;> omega
+
+/-- (3) a caller that starts a call — takes the shared guard — after `setFlags` is refused: from a
+state in which the flags are set and thread `t` is not past the latch test of a call, no
+execution contains `enterBackend` of `t`, `t` is never inside the backend, and the backend sees no
+further call of `t`. This is the latch alone and holds in all three variants; what the guard adds
+is (1) for the callers that passed the latch BEFORE `setFlags`. -/
+theorem c20_refused_after_flags {v : Variant} {s s' : Sys} {tr : List Action} {t : Nat}
+    (hflag : s.closedFlag = true) (hpc : (s.pc t).committed = false) (hex : Exec v s tr s') :
+    Action.caller t .enterBackend ∉ tr ∧ (∀ g, s'.pc t ≠ .inBackend g) ∧
+      s'.log.count (.call t) = s.log.count (.call t) := by
+  obtain ⟨_, h2, h3, h4⟩ := latch_exec hex hflag hpc
+  refine ⟨h3, fun g e => ?_, h4⟩
+  simp [e, PC.committed] at h2
+
+/-- (3), one step: the latch test of such a caller answers "refused" and gives the guard back -/
+theorem c20_latch_refuses {s s1 s2 : Sys} {t : Nat} (hflag : s.closedFlag = true)
+    (h1 : Step s (.caller t .acquireShared) s1) (h2 : Step s1 (.caller t .testLatch) s2) :
+    s2.pc t = .refused ∧ s2.readers = s.readers := by
+  cases stepI_of_step h1 with
+  | acquire _ hpc _ _ =>
+    cases stepI_of_step h2 with
+    | refuseG _ _ _ => simp [setPc]
+    | passG _ _ hl => simp [Sys.latchShut, hflag] at hl
+    | refuseU _ hp _ _ => simp [setPc] at hp
+    | passU _ hp _ _ => simp [setPc] at hp
+
+/-- the closer waits: `acquireExclusive` is not enabled while some thread holds the shared guard -/
+theorem c20_close_waits_while_held {s : Sys} {t : Nat} (h : Reachable .guarded s)
+    (ht : (s.pc t).holds = true) : step .guarded s (.closer .acquireExclusive) = none := by
+  obtain ⟨hs, hh⟩ := (inv_reachable h).holders
+  cases hcpc : s.cpc <;> simp only [step, hcpc]
+  split
+  · rename_i h0
+    have := holders_zero (h0 ▸ hh) t
+    rw [ht] at this; cases this
+  · rfl
+
+/-- a thread that holds the guard never waits: its next action (`testLatch`, `enterBackend` or
+`leaveBackend`) is enabled in every state, whatever the closer and the other threads do -/
+theorem c20_holder_never_waits {v : Variant} {s : Sys} {t : Nat} (h : (s.pc t).holds = true) :
+    ∃ c s', c.nonBlocking = true ∧ StepV v s (.caller t c) s' :=
+  holder_never_waits h
+
+/-- (4) no deadlock, weak form: from any reachable state in which the closer waits for the
+exclusive lock there is a finite execution — only non-blocking steps of threads that hold the
+shared guard now, at most 2 (a fortiori 3) per holder: `readers` is the number of holders — after
+which `acquireExclusive` is enabled. So under fair scheduling the close is eventually enabled. -/
+theorem c20_close_eventually_enabled {s : Sys} (h : Reachable .guarded s) (hw : s.cpc = .flagged) :
+    ∃ tr s', Exec .guarded s tr s' ∧ tr.length ≤ 2 * s.readers ∧ tr.length ≤ 3 * s.readers ∧
+      (∀ a ∈ tr, ∃ t c, a = .caller t c ∧ (s.pc t).holds = true ∧ c.nonBlocking = true) ∧
+      ∃ s'', Step s' (.closer .acquireExclusive) s'' := by
+  have hi := inv_reachable h
+  obtain ⟨hs, hh⟩ := hi.holders
+  have hf : s.closedFlag = true := by rw [hi.flag, hw]; rfl
+  obtain ⟨tr, s', e, l, r, c, _, _, a⟩ := drain (v := .guarded) hs s hf hh
+  rw [hh.2.1] at l
+  refine ⟨tr, s', e, l, by omega, a, { s' with writer := true, cpc := .exclusive }, ?_⟩
+  simp [Step, StepV, step, c, hw, r]
+
+/-- the reader passes the latch, the closer runs up to `backendClose`, the reader goes on -/
+def unguardedRace : List Action :=
+  [.caller 1 .testLatch, .closer .setFlags, .closer .acquireExclusive, .closer .backendClose,
+   .caller 1 .enterBackend]
+
+/-- (5a) without the guard (`StepNoGuard`, the code before the fix) a `call` after `close` is
+reachable: the reader passes the latch, the closer runs up to `backendClose`, the reader goes on
+into the backend -/
+theorem c20_unguarded_race_witness :
+    ∃ tr s, Exec .noGuard init tr s ∧ ∃ pre post t, s.log = pre ++ .close :: post ∧
+      Ev.call t ∈ post := by
+  have h : (exec .noGuard init unguardedRace).map Sys.log = some [.close, .call 1] := by decide
+  obtain ⟨s, he, hl⟩ := exec_log_witness h
+  exact ⟨_, s, he, [], [.call 1], 1, hl, by simp⟩
+
+/-- thread 1 makes a guarded call, thread 2 a call of the class that skips the guard -/
+def partialGuardRace : List Action :=
+  [.caller 1 .acquireShared, .caller 1 .testLatch, .caller 2 .testLatch, .closer .setFlags,
+   .caller 1 .enterBackend, .caller 1 (.leaveBackend false),
+   .closer .acquireExclusive, .closer .backendClose, .closer .releaseExclusive,
+   .caller 2 .enterBackend]
+
+/-- (5b) the seeded variant (`StepPartial`): thread 1 makes a guarded call, thread 2 a call of the
+class that skips the guard; the closer does wait for thread 1 — and then closes under thread 2's
+feet: `call 1; close; call 2` -/
+theorem c20_partial_guard_race_witness :
+    ∃ tr s, Exec .partialGuard init tr s ∧ ∃ pre post t, s.log = pre ++ .close :: post ∧
+      Ev.call t ∈ post := by
+  have h : (exec .partialGuard init partialGuardRace).map Sys.log =
+      some [.call 1, .close, .call 2] := by decide
+  obtain ⟨s, he, hl⟩ := exec_log_witness h
+  exact ⟨_, s, he, [.call 1], [.call 2], 2, hl, by simp⟩
+
+/-- the forced schedule of the contract harness (`close_race`: reader parked between latch test
+and backend call, another thread drops the `Database`, reader released) on the guarded model: every
+action is enabled where the schedule puts it, the closer has to wait while the reader is parked and
+can go on once the reader has left the backend, the reader's next call is refused, and the backend
+sees `call; close`. This is the prediction the driver checks `close-race-*` lines against. -/
+theorem c20_race_replay_guarded :
+    raceReplay .guarded true =
+      { ran := true, closeWaited := true, closeRan := true, nextRefused := true,
+        log := [.call 1, .close] } ∧
+    raceReplay .guarded false =
+      { ran := true, closeWaited := false, closeRan := true, nextRefused := true,
+        log := [.call 1, .close] } := by
+  constructor <;> decide
+
+/-! ### non-vacuity -/
+
+-- the guarded model does reach states with a call, a close, and a refused caller
+example : (exec .guarded init
+    [.caller 1 .acquireShared, .caller 1 .testLatch, .caller 1 .enterBackend,
+     .caller 1 (.leaveBackend false), .closer .setFlags, .closer .acquireExclusive,
+     .closer .backendClose, .closer .releaseExclusive, .caller 1 .next,
+     .caller 1 .acquireShared, .caller 1 .testLatch]).map (fun s => (s.log, s.pc 1, s.readers))
+    = some ([.call 1, .close], .refused, 0) := by decide
+-- two readers in flight: the closer is blocked until the second one has left
+example : (exec .guarded init
+    [.caller 1 .acquireShared, .caller 2 .acquireShared, .caller 1 .testLatch,
+     .caller 2 .testLatch, .closer .setFlags, .caller 1 .enterBackend,
+     .caller 1 (.leaveBackend false)]).map (fun s => (s.canAcquireExclusive .guarded, s.readers))
+    = some (false, 1) := by decide
+example : (exec .guarded init
+    [.caller 1 .acquireShared, .caller 2 .acquireShared, .caller 1 .testLatch,
+     .caller 2 .testLatch, .closer .setFlags, .caller 1 .enterBackend,
+     .caller 1 (.leaveBackend false), .caller 2 .enterBackend,
+     .caller 2 (.leaveBackend true)]).map (fun s => (s.canAcquireExclusive .guarded, s.readers))
+    = some (true, 0) := by decide
+-- the racy schedules are not schedules of the guarded model …
+example : (exec .guarded init unguardedRace).isNone = true := by decide
+example : (exec .guarded init partialGuardRace).isNone = true := by decide
+-- … and with the guard taken the closer cannot overtake the parked reader
+example : (exec .guarded init
+    [.caller 1 .acquireShared, .caller 1 .testLatch, .closer .setFlags,
+     .closer .acquireExclusive]).isNone = true := by decide
+-- while the closer holds the lock no new call can begin
+example : (exec .guarded init
+    [.closer .setFlags, .closer .acquireExclusive, .caller 1 .acquireShared]).isNone = true := by
+  decide
+-- the harness schedule on the broken variants: the closer does not wait, the call comes after
+example : (raceReplay .noGuard true).closeWaited = false ∧
+    callAfterClose (raceReplay .noGuard true).log = true := by decide
+-- a failed call latches `io_failed`: the next call is refused before any close
+example : (exec .guarded init
+    [.caller 1 .acquireShared, .caller 1 .testLatch, .caller 1 .enterBackend,
+     .caller 1 (.leaveBackend true), .caller 2 .acquireShared, .caller 2 .testLatch]).map
+      (fun s => (s.pc 2, s.readers, s.log)) = some (.refused, 0, [.call 1]) := by decide
+example : callAfterClose [.call 1, .close] = false ∧ callAfterClose [.close, .call 1] = true ∧
+    callAfterClose [.call 1, .close, .close] = false := by decide
+
+end Redb.CloseGuard
+
 section axioms
-open Redb.Backend Redb.Format
+open Redb.Backend Redb.Format Redb.CloseGuard
 #print axioms c20_accept_iff
 #print axioms run_closes
 #print axioms run_mutations
@@ -258,4 +479,15 @@ open Redb.Backend Redb.Format
 #print axioms c20_addr_disjoint_same_region
 #print axioms c20_getPage_some
 #print axioms c20_fileLen_tight
+#print axioms c20_no_call_after_close
+#print axioms c20_no_call_after_close_bool
+#print axioms c20_close_once
+#print axioms c20_refused_after_flags
+#print axioms c20_latch_refuses
+#print axioms c20_close_waits_while_held
+#print axioms c20_holder_never_waits
+#print axioms c20_close_eventually_enabled
+#print axioms c20_unguarded_race_witness
+#print axioms c20_partial_guard_race_witness
+#print axioms c20_race_replay_guarded
 end axioms
